@@ -56,11 +56,11 @@ let () =
         (try
           (match List.map int_of_string (split_ws req) with
            | nd :: rest ->
-             let disk = ref [] in
+             let disk = ref [] in let dirs = ref [] in
              let rest = ref rest in
              let pop () = (match !rest with x :: r -> rest := r; x | [] -> failwith "short") in
              for _ = 1 to nd do
-               let d = pop () in let nf = pop () in
+               let d = pop () in let nf = pop () in dirs := nat_of_int d :: !dirs;
                for f = 0 to nf - 1 do let c = pop () in disk := ((nat_of_int d, nat_of_int f), nat_of_int c) :: !disk done
              done;
              let key () = let d = pop () in let f = pop () in (nat_of_int d, nat_of_int f) in
@@ -76,7 +76,7 @@ let () =
                  | _ -> MDeleteDir (nat_of_int (pop ()))) in
                calls := c :: !calls
              done;
-             let outs = mrun { md_disk = List.rev !disk; md_docs = [] } (List.rev !calls) in
+             let outs = mrun { md_disk = List.rev !disk; md_docs = []; md_dirs = List.rev !dirs } (List.rev !calls) in
              let enc = function MVersion (v, c) -> Printf.sprintf "0 %d %d" (int_of_nat v) (int_of_nat c) | MConflict v -> Printf.sprintf "1 %d" (int_of_nat v)
                               | MNotFound -> "3" | MExists -> "4" | MDone -> "5" in
              Printf.printf "%s M %s | J 1\n" id (Stdlib.String.concat " " (List.map enc outs))
